@@ -38,7 +38,7 @@ pub fn prop() -> Prop {
         stub: &["transport", "store", "glue", "random source"],
         independent: &["harness Lagrange interpolation at the repaired identifier"],
         ref_sample: |_| 0,
-        required_probes: &["repair_existing", "repair_new_identifier", "helpers_gt_t", "helpers_eq_t", "helpers_all_others", "keys_from_dkg", "signed_with_repaired", "refusals_checked", "reordered_arrival"],
+        required_probes: &["repair_existing", "repair_new_identifier", "helpers_gt_t", "helpers_eq_t", "helpers_all_others", "keys_from_dkg", "signed_with_repaired", "refusals_checked", "reordered_arrival", "repair_after_refresh"],
         prepare: None,
     }
 }
@@ -79,6 +79,12 @@ fn gen_c<C: Suite>(seed: u64, run: u64, tier: Tier) -> Scenario {
     s.wire = gen_wire(&mut p);
     let dkg = p.chance(1, 4) && n <= if slow { 3 } else { 5 };
     s.phases.push(vec![if dkg { Inst::Dkg } else { Inst::DealerKeygen { split_key: p.chance(1, 2) } }]);
+    // sometimes the group refreshes its shares first (trusted dealer or distributed): repair must work on refreshed shares
+    if p.chance(1, 4) {
+        let all: Vec<usize> = (0..n as usize).collect();
+        let use_dkg = p.chance(1, 2) && n <= if slow { 3 } else { 5 };
+        s.phases.push(vec![if use_dkg { Inst::RefreshDkg { remaining: all } } else { Inst::RefreshDealer { remaining: all } }]);
+    }
     let target = if new_target { n as usize } else { p.below(n as u64) as usize };
     let pool: Vec<usize> = (0..n as usize).filter(|x| *x != target).collect();
     let hk = match p.below(4) {
@@ -122,10 +128,14 @@ fn exec_c<C: Suite>(scen: &Scenario) -> Exec {
     let viol = |o: &str, d: String| Violation::new("C11", o, d);
     let n = scen.n as usize;
     let t = scen.t as usize;
-    let (inst, target, helpers) = match scen.phases.get(1).and_then(|p| p.first()) {
-        Some(Inst::Repair { target, helpers }) => (scen.phase_range(1).start, *target, helpers.clone()),
+    let rphase = scen.phases.iter().position(|ph| matches!(ph.first(), Some(Inst::Repair { .. }))).unwrap_or(1);
+    let (inst, target, helpers) = match scen.phases.get(rphase).and_then(|p| p.first()) {
+        Some(Inst::Repair { target, helpers }) => (scen.phase_range(rphase).start, *target, helpers.clone()),
         _ => return Exec::Harness("no repair instance".into()),
     };
+    if rphase > 1 {
+        rep.probe("repair_after_refresh");
+    }
     let pk = match sim.hub.as_ref().and_then(|h| h.pk.clone()) {
         Some(p) => p,
         None => return Exec::Harness("no pk".into()),
@@ -139,6 +149,10 @@ fn exec_c<C: Suite>(scen: &Scenario) -> Exec {
             }
             Record::DkgDone { node, kp, .. } => {
                 all_kps.insert(*node, kp.clone());
+            }
+            // a refresh before the repair replaces the shares the helpers work with
+            Record::Refreshed { node, new_kp, .. } => {
+                all_kps.insert(*node, new_kp.clone());
             }
             _ => {}
         }
